@@ -3,6 +3,7 @@
 package sio
 
 import (
+	"reflect"
 	"time"
 
 	eio "github.com/karagenc/socket.io-go/engine.io"
@@ -26,3 +27,71 @@ func (q VerifPacketQueue) Reset()                            { q.pq.reset() }
 func (q VerifPacketQueue) Close()                            { q.pq.close() }
 func (q VerifPacketQueue) WaitForDrain(d time.Duration) bool { return q.pq.waitForDrain(d) }
 func (q VerifPacketQueue) LenUnlocked() int                  { return len(q.pq.packets) }
+
+// ---- handler registries (C18)
+
+type VerifHandlerStore[T comparable] struct{ s *handlerStore[T] }
+
+func VerifNewHandlerStore[T comparable]() VerifHandlerStore[T] {
+	return VerifHandlerStore[T]{newHandlerStore[T]()}
+}
+func (v VerifHandlerStore[T]) On(h T)      { v.s.on(h) }
+func (v VerifHandlerStore[T]) Once(h T)    { v.s.once(h) }
+func (v VerifHandlerStore[T]) Off(h ...T)  { v.s.off(h...) }
+func (v VerifHandlerStore[T]) OffAll()     { v.s.offAll() }
+func (v VerifHandlerStore[T]) GetAll() []T { return v.s.getAll() }
+func (v VerifHandlerStore[T]) ForEach(f func(T), concurrent bool) {
+	v.s.forEach(f, concurrent)
+}
+func (v VerifHandlerStore[T]) Lists() (funcs, once []T) {
+	return append([]T{}, v.s.funcs...), append([]T{}, v.s.funcsOnce...)
+}
+
+type VerifEventHandlerStore struct{ s *eventHandlerStore }
+
+func VerifNewEventHandlerStore() VerifEventHandlerStore {
+	return VerifEventHandlerStore{newEventHandlerStore()}
+}
+func (v VerifEventHandlerStore) On(ev string, f any) {
+	h, err := newEventHandler(f)
+	if err != nil {
+		panic(err)
+	}
+	v.s.on(ev, h)
+}
+func (v VerifEventHandlerStore) Once(ev string, f any) {
+	h, err := newEventHandler(f)
+	if err != nil {
+		panic(err)
+	}
+	v.s.once(ev, h)
+}
+func (v VerifEventHandlerStore) Off(ev string, f ...any) {
+	var vals []reflect.Value
+	if f != nil {
+		vals = make([]reflect.Value, len(f))
+		for i := range f {
+			vals[i] = reflect.ValueOf(f[i])
+		}
+	}
+	v.s.off(ev, vals...)
+}
+func (v VerifEventHandlerStore) OffAll() { v.s.offAll() }
+
+// Fire takes the handlers of ev the way the sockets do and calls them in order.
+func (v VerifEventHandlerStore) Fire(ev string) {
+	for _, h := range v.s.getAll(ev) {
+		h.call()
+	}
+}
+
+// Lists returns the function values registered for ev.
+func (v VerifEventHandlerStore) Lists(ev string) (on, once []reflect.Value) {
+	for _, h := range v.s.events[ev] {
+		on = append(on, h.rv)
+	}
+	for _, h := range v.s.eventsOnce[ev] {
+		once = append(once, h.rv)
+	}
+	return
+}
